@@ -77,6 +77,9 @@ static inline double verif_llvm_log_f64(double x){ return log(x); }
 static inline double verif_llvm_log2_f64(double x){ return log2(x); }
 static inline double verif_llvm_log10_f64(double x){ return log10(x); }
 static inline float verif_llvm_ceil_f32(float x){ return ceilf(x); }
+static inline float verif_llvm_round_f32(float x){ return roundf(x); }
+static inline float verif_llvm_trunc_f32(float x){ return truncf(x); }
+static inline float verif_llvm_rint_f32(float x){ return rintf(x); }
 static inline float verif_llvm_sqrt_f32(float x){ return sqrtf(x); }
 static inline uint64_t verif_llvm_abs_i64(uint64_t x, uint8_t p){ return (int64_t)x < 0 ? (uint64_t)0 - x : x; }
 static inline uint32_t verif_llvm_abs_i32(uint32_t x, uint8_t p){ return (int32_t)x < 0 ? (uint32_t)0 - x : x; }
